@@ -11,10 +11,7 @@ Ltac open_body body :=
   cbn [List.length Nat.add Nat.eqb negb orb].
 
 (* ---------------- BOX ---------------- *)
-Definition box_params (v a1 a2 a3 : pt) : list R := pl v ++ pl a1 ++ pl a2 ++ pl a3.
 
-Definition box_admissible (a1 a2 a3 : pt) : Prop :=
-  dot a1 a2 = 0 /\ dot a1 a3 = 0 /\ dot a2 a3 = 0 /\ det a1 a2 a3 <> 0.
 
 (* a pair of facets: normal n = (the cross product of the two other edges),
    parallel to the edge a with n.a = D *)
@@ -47,10 +44,10 @@ Qed.
 
 Theorem box_facets_ok (v a1 a2 a3 : pt) :
   box_admissible a1 a2 a3 ->
-  exists es, box RS (box_params v a1 a2 a3) = Ok es /\
+  exists es, box RS (pl v ++ pl a1 ++ pl a2 ++ pl a3) = Ok es /\
              Forall2 same_facet es (box_facets v a1 a2 a3).
 Proof.
-  intros (H12 & H13 & H23 & HD). unfold box_params.
+  intros (H12 & H13 & H23 & HD).
   open_body @box. rewrite (pl_nil a3), v3_at0, v3_at3, v3_at6, v3_at9. tospec.
   eexists; split; [reflexivity|].
   assert (H21 : dot a2 a1 = 0) by now rewrite dot_comm.
@@ -309,8 +306,6 @@ Proof.
 Qed.
 
 (* ---------------- WED ---------------- *)
-Definition wed_admissible (a b h : pt) : Prop :=
-  dot a b = 0 /\ dot a h = 0 /\ dot b h = 0 /\ det a b h <> 0.
 
 Lemma cross_vsub_dot (a b h q : pt) :
   dot (cross (vsub a b) h) q = dot (cross a h) q - dot (cross b h) q.
